@@ -390,6 +390,8 @@ def run(ctx):
     ctx.floor("C08-R9", 4)
     r14(ctx)
     r15(ctx)
+    from . import C12
+    C12.r8(ctx)   # a released burst of connects up to tcp_capacity fits the accept queue: the capacity test is made before the enqueue, on live requests
     from . import C09
     C09.r6(ctx)   # a released burst lands in the socket together: the datagram parked by readable() is not overwritten by the next one
     C03.r2(ctx, C03.Typestate(ctx.w, C03.CELLS))   # nothing is put in flight past the state test of Link::enqueue (an answer generated on a held link is parked too)
